@@ -33,6 +33,9 @@ def classify(src, kinds):
     return None
 
 
+_F08A_KINDS = {"overlap-or-disorder", "text-mismatch", "uncovered-text", "logical-line-not-closed-by-newline"}
+
+
 def check_case(acc, src, origin):
     out = base.guarded(_tok, src)
     acc.count("inputs_" + origin)
@@ -51,57 +54,40 @@ def check_case(acc, src, origin):
         acc.nontrivial(base.h64(src))
     if acc.evals % 1499 == 1:
         acc.sample({"src": src[:120], "tokens": len(toks)})
-    mism = []
-    v = tokcheck.tiling_violations(src, toks, mismatched_out=mism)
+    mism, gaps = [], []
+    v = tokcheck.tiling_violations(src, toks, mismatched_out=mism, gaps_out=gaps)
     if v:
         kinds = {k for k, _ in v}
         fid = classify(src, kinds)
-        if fid is None and "text-mismatch" in kinds and kinds <= {"overlap-or-disorder", "text-mismatch", "uncovered-text", "logical-line-not-closed-by-newline"} and _f08a(toks, mism):
+        if fid is None and "text-mismatch" in kinds and kinds <= _F08A_KINDS and tokcheck.pending_string_symptom(toks, mism, gaps):
             fid = "F08a"
         if fid is None:
             # F10c (nested field with its own spec inside a format spec): counterfactual - with the inner spec removed the stream tiles
             from . import c10
 
             ptoks = gen_py.py_tokens(src)
-            neutral = (c10.strip_deep_specs(src, ptoks) if ptoks else None) or re.sub(r"\{(\w+):[^{}'\"]*\{\w+\}\}", r"{\1}", src)
+            neutral = (c10.strip_deep_specs(src, ptoks) if ptoks else None) or re.sub(r"\{(\w+):[^{}'\"]*\{[^{}'\"]*\}\}", r"{\1}", src)
             if neutral == src:
                 # text that CPython cannot tokenize: a field with a spec of its own after a ':' that is still open (spec context)
                 neutral = re.sub(r"(:(?:[^{}\"]|\{\w+\})*)\{(\w+):[^{}]*\}", r"\1{\2}", src)
             if neutral != src:
                 o2 = base.guarded(_tok, neutral)
                 # no violation remains: the neutralised text tiles, or the tokenizer rejects it (then it is outside the property's domain)
-                if o2.rejected or (o2.kind == "tree" and not tokcheck.tiling_violations(neutral, o2.value)):
+                if o2.rejected:
                     fid = "F10c"
+                elif o2.kind == "tree":
+                    m2, g2 = [], []
+                    v2 = tokcheck.tiling_violations(neutral, o2.value, mismatched_out=m2, gaps_out=g2)
+                    if not v2:
+                        fid = "F10c"
+                    elif {k for k, _ in v2} <= _F08A_KINDS and tokcheck.pending_string_symptom(o2.value, m2, g2):
+                        # both mechanisms in one input: what is left once the deep spec is removed is exactly the pending-string signature
+                        fid = "F10c"
+                        acc.finding("F08a", src[:100])
         if fid:
             acc.finding(fid, src[:100])
         else:
             acc.violation(v[0][0], {"src": src, "origin": origin}, {"violations": [list(map(str, x)) for x in v]})
-
-
-def _f08a(toks, mismatched):
-    """pending unterminated single-quoted (f-)string closed by a later quote: every token whose text differs from its source slice
-    is a STRING / FSTRING_MIDDLE of a single-quoted (not triple-quoted) literal"""
-    from peg_parser.tokenize import Token
-
-    if not mismatched:
-        return False
-    fquote = {}
-    cur = None
-    for i, t in enumerate(toks):
-        if t.type == Token.FSTRING_START:
-            cur = t.string.lstrip("bBrRuUfFpP")
-        fquote[i] = cur
-    for i in mismatched:
-        t = toks[i]
-        if t.type == Token.STRING:
-            if t.string.lstrip("bBrRuUfFpP")[:3] in ("'''", '"""'):
-                return False
-        elif t.type == Token.FSTRING_MIDDLE:
-            if fquote[i] is None or len(fquote[i]) == 3:
-                return False
-        else:
-            return False
-    return True
 
 
 MULTILINE_STRINGS = [
